@@ -68,15 +68,26 @@ func (b *Built) settings(env *Env, calls *[]callRec) ([]xsel.ContextApply, error
 		out = append(out, xsel.WithNS(p, str(u)))
 	}
 	for _, v := range env.Vars {
-		src := b
-		if v.Foreign && v.Val.T == "ns" {
-			twin, err := b.twin()
-			if err != nil {
-				return nil, err
+		var r xsel.Result
+		var err error
+		if v.Val.T == "fns" {
+			// nodes of another document: a tree built from the environment's twin document
+			twin, terr := b.twin(env.Twin)
+			if terr != nil {
+				return nil, terr
 			}
-			src = twin
+			ns := make(xsel.NodeSet, 0, len(v.Val.Ids))
+			for _, id := range v.Val.Ids {
+				c, ok := twin.ByID[id]
+				if !ok {
+					return nil, fmt.Errorf("no node %d in the twin document", id)
+				}
+				ns = append(ns, c)
+			}
+			r = ns
+		} else {
+			r, err = b.resultOf(v.Val)
 		}
-		r, err := src.resultOf(v.Val)
 		if err != nil {
 			return nil, err
 		}
